@@ -333,6 +333,8 @@ def report(prop, tier, seed, harnesses, results, extra, wall):
     if code == EXIT_OK:
       code = EXIT_INCONCLUSIVE
   write_evidence(prop, tier, seed, harnesses, results, extra, wall, n_viol, sorted(known_hit), errors)
+  for r in sorted(results, key=lambda r: -r["wall_s"])[:3]:
+    print("slowest: %s %s %.1fs %d paths" % (r["harness"], json.dumps(r["params"]), r["wall_s"], r["paths"]))
   tot_paths = sum(r["paths"] for r in results)
   print("%s %s: %d partitions, %d paths, %d assertions discharged, %d solver queries, solver %.1fs, wall %.1fs -> %s" % (
     prop, tier, len(results), tot_paths, sum(r["proved"] for r in results) + sum(e.get("obligations", 0) for e in extra),
